@@ -20,6 +20,22 @@ def scenarios(quick):
                 out.append({'kind': kind, 'target': 'p_echo', 'inputs': list(range(1, n + 1)), 'close': True, 'pipe': pipe})
         for pipe in ('default', 'supplied'):
             out.append({'kind': kind, 'target': 'p_poison', 'inputs': [1, 99, 3], 'close': True, 'pipe': pipe})
+        # a consumer already blocked on the stream while the worker is alive
+        out.append({'kind': kind, 'target': 'p_echo', 'inputs': [1, 2], 'close': True, 'pipe': 'default', 'consume': 'live'})
+    return out
+
+
+def forced_cases():
+    """The child ignores the graceful request and is killed by the forced phase of terminate()."""
+    out = []
+    for kind in ('PP', 'PR'):
+        for pipe in ('default', 'supplied'):
+            for consume in (('api', 'live') if pipe == 'default' else ('raw',)):
+                c = {'kind': kind, 'target': 'slow_echo', 'targs': {'delay': 0.0}, 'inputs': [1, 2, 'STUBBORN'], 'close': False, 'pipe': pipe,
+                     'forced_terminate': True, 'events': []}
+                if consume == 'live':
+                    c['consume'] = 'live'
+                out.append(c)
     return out
 
 
@@ -38,14 +54,19 @@ def judge(case, obs):
         return ('constructor-' + str(obs.get('ctor')), None)
     if obs.get('not_reached'):
         return ('beyond-end', None)
+    if isinstance(obs.get('death'), str) and obs['death'].startswith('RAISES:'):
+        return ('wait-' + obs['death'], None)
+    tr = obs.get('terminate_ret') or []
+    if tr and isinstance(tr[0], str) and tr[0].startswith('RAISES:'):
+        return ('terminate-' + tr[0], None)
     if obs.get('death') is not True:
         return ('not-dead', None)
     inputs = case.get('inputs', [])
     exp = []
     for x in inputs:
-        if case['target'] == 'p_poison' and x == 99:
+        if (case['target'] == 'p_poison' and x == 99) or x in ('POISON', 'STUBBORN'):
             break
-        exp.append(x * 10)
+        exp.append([x] if case['target'] == 'slow_echo' else x * 10)
     res = obs.get('results')
     end = obs.get('stream_end')
     if res is None:
@@ -68,7 +89,7 @@ def judge(case, obs):
     if not raw and obs.get('after_end') != 'RAISES:Empty':
         return ('read-after-end-%s' % obs.get('after_end'), None)
     ev = (case.get('events') or [None])[0]
-    if ev is None and vals != exp:
+    if ev is None and vals != exp and not case.get('forced_terminate'):
         return ('results-missing-without-any-fault', None)
     return None
 
@@ -79,13 +100,14 @@ def run(ctx):
                 'along the base path; events: terminate, SIGKILL (process/remote), target exception on item 2 (base path of its own)')
     scs = scenarios(ctx.quick)
     bases, runs = land.sweep(scs, actions(ctx.quick), full=full)
+    forced = land.run_cases(forced_cases(), case_timeout=90)
     harness = 0
-    for obs in bases + runs:
+    for obs in bases + runs + forced:
         case = obs['case']
         ev = (case.get('events') or [None])[0]
         site = ((obs.get('landed') or [{}])[0].get('site')) or case.get('_site')      # where it really landed in this run
         ctx.count()
-        ctx.distinct((case['kind'], case['target'], len(case.get('inputs', [])), case.get('pipe'), ev['action'] if ev else None, ev['k'] if ev else None))
+        ctx.distinct((case['kind'], case['target'], len(case.get('inputs', [])), case.get('pipe'), case.get('consume'), bool(case.get('forced_terminate')), ev['action'] if ev else None, ev['k'] if ev else None))
         v = judge(case, obs)
         ctx.outcome('%s:%s' % (case['kind'], v[0] if v else 'ok'))
         if v is None:
@@ -97,9 +119,9 @@ def run(ctx):
             harness += 1
             ctx.extra.setdefault('harness_anomalies', []).append({'case': {k: case.get(k) for k in ('kind', 'target', 'events', 'pipe')}, 'why': v[1]})
             continue
-        where = ('%s@%s' % (ev['action'], land.site_sig(site, REPO))) if ev else 'no-fault'
-        sig = 'LAND/%s/%s/%s-pipe/%s/%s' % (case['kind'], case['target'], case.get('pipe'), where, v[0])
-        ctx.violation(sig, {k: case.get(k) for k in ('kind', 'target', 'inputs', 'close', 'pipe', 'events', '_site')},
+        where = ('%s@%s' % (ev['action'], land.site_sig(site, REPO))) if ev else ('forced-terminate' if case.get('forced_terminate') else 'no-fault')
+        sig = 'LAND/%s/%s/%s-pipe%s/%s/%s' % (case['kind'], case['target'], case.get('pipe'), '+live-consumer' if case.get('consume') == 'live' else '', where, v[0])
+        ctx.violation(sig, {k: case.get(k) for k in ('kind', 'target', 'targs', 'inputs', 'close', 'pipe', 'consume', 'forced_terminate', 'events', '_site')},
                       {'results': obs.get('results'), 'stream_end': obs.get('stream_end'), 'after_end': obs.get('after_end')},
                       'a prefix of the expected results, then the end of the stream', engine='LAND')
     for b, s in list(zip(bases, scs))[:4]:
